@@ -418,6 +418,14 @@ func (in *Interp) initExterns() {
 		in.sch.syncPoint(&SyncOp{kind: "symx.YieldOn", obj: key, enabled: func() bool { return true }, completed: -1})
 		return nil
 	})
+	sx("OthersDone", func(in *Interp, _ *frame, _ *ssa.Function, a []value) value {
+		for _, t := range in.sch.threads {
+			if t != in.sch.cur && !t.done {
+				return ts.False
+			}
+		}
+		return ts.True
+	})
 	sx("Yield", func(in *Interp, _ *frame, _ *ssa.Function, a []value) value {
 		in.sch.yield("symx.Yield")
 		return nil
